@@ -5,6 +5,7 @@ from rules import wr_frame as r_wrf
 from rules import si as r_si
 from rules import hdr_num as r_num
 from rules import sec as r_sec
+from rules import data as r_data
 
 PROPS = {}
 
@@ -186,3 +187,90 @@ prop("C05",
      level_text="Static guarantee of the structural clauses (one interval convention, end test on every iteration, "
                 "case-insensitive letters, steering only from ~V/~W, routing agrees with parsing, re-seek before every "
                 "consumer) on the analysed source; attribution of every concrete line is not executed.")
+
+prop("C06",
+     [r_data.rule_null_guard, r_data.rule_null_table, r_data.rule_null_write, r_sec.rule_steer, r_data.rule_counter],
+     "Guard analysis of the NULL->NaN store in LASFile.read: the store `column[mask] = nan` must exist, its mask must be "
+     "an exact `column == <value taken from ~Well NULL>` with no call and no tolerance/rounding function in its "
+     "provenance (NULL.EXACT), and by control dependence it executes exactly under: the policy flag (third result of "
+     "get_substitutions) AND a float-dtype test on the column AND a test on the column counter that folds to "
+     "[F,T,T,T,T,T] over indexes 0..5 - any further conjunct is reported (NULL.GUARD); the counter is the disciplined "
+     "0-based, once-per-column counter (DATA.COUNTER); folded tables: NULL_POLICIES['strict']==['NULL'], ['none']==[], "
+     "NULL_SUBS['NULL']==[None]; the decoder raises the flag only for 'NULL' and drops None from the numeric list "
+     "(NULL.TABLE); NULL is steered from ~W only (SEC.STEER); the writer's NaN branch emits str(well['NULL'].value) "
+     "unformatted, so the reader's exact comparison finds it again (NULL.WRITE). Not decided: the iff over every cell of "
+     "every file, behaviour of the other null policies.",
+     COMMON_ASSUMPTIONS, "DESIGN.md section 4, C06",
+     technique="control-dependence guard analysis + truth-table folding of the index guard + folded policy tables",
+     level_text="Static guarantee that the only NULL->NaN path has exactly the documented guard and an exact comparison, "
+                "and that writer and reader use the same marker; per-cell behaviour is not executed.")
+
+prop("C07",
+     [r_data.rule_wrap_count, r_data.rule_tokenizer, r_sec.rule_line_normalise, r_data.rule_counter, r_data.rule_reshape,
+      r_data.rule_split, r_sec.rule_reseek],
+     "Column binding analysis: under the assumption WRAP == YES with declared curves, an explicit-state search of "
+     "LASFile.read shows that the n_columns argument of the reference engine is never the per-line count sniffed by "
+     "inspect_data_section, and all tests on the WRAP value fold to the same predicate over 9 probe values "
+     "(DATA.WRAP-COUNT); the sniffer counts len(<splitter>(line)) with the very splitter object handed to the reference "
+     "engine, produced by define_line_splitter(DLM) (DATA.TOKENIZER); sniffer and reference engine strip, then skip blank "
+     "and comment lines before counting/parsing, and agree on what is skipped (LINE.NORMALISE); the assignment loop has a "
+     "0-based counter advanced exactly once per column and reset per data section, stores column i into curves[i] under "
+     "i < len(curves), appends CurveItem(data=column) otherwise, rebuilds its bookkeeping per section and NaN-fills "
+     "unassigned curves with the common length (DATA.COUNTER); the reference engine reshapes row-major to (-1, n) and "
+     "yields array[:, j] for ascending j, the fast engine passes unpack=True/loose=False and no row/column-dropping "
+     "option (DATA.RESHAPE); comma splitting is positional and the splitter keys are the DLM vocabulary (DATA.SPLIT); "
+     "every consumer is entered after a seek to its section (SEC.RESEEK). Not decided: cell-by-cell placement for all "
+     "shapes, equal length when lines are ragged.",
+     COMMON_ASSUMPTIONS, "DESIGN.md section 4, C07 and shared rule group DATA",
+     technique="explicit-state path search under WRAP==YES + provenance of the token count + loop-counter discipline on the CFG",
+     level_text="Static guarantee of the structural clauses that bind column j to curve j; placement of concrete cells is not executed.")
+
+prop("C01",
+     [r_data.rule_wrap_count, r_data.rule_wrap_tokens, r_data.rule_null_write, r_data.rule_null_guard, r_data.rule_reshape,
+      r_data.rule_counter],
+     "Write->read pairing clauses: lasio's own wrapped output is re-read with the declared curve count, never the sniffed "
+     "per-line count (DATA.WRAP-COUNT, explicit-state search under WRAP == YES); the writer's TextWrapper has "
+     "width=data_width, break_long_words=False, break_on_hyphens=False, so lines break only at the blanks between values "
+     "(WR.WRAP-TOKENS); NaN is written as str(well['NULL'].value) and read back through an exact, index-excluding, "
+     "float-only mask (NULL.WRITE, NULL.GUARD, NULL.EXACT); tokens are reshaped row-major and bound to curves in order "
+     "(DATA.RESHAPE, DATA.COUNTER). Not decided: the half-unit precision bound, preservation of every finite value, "
+     "field-width/spacer combinations, engine equivalence (value level).",
+     COMMON_ASSUMPTIONS, "DESIGN.md section 4, C01",
+     technique="reader/writer pairing rules: explicit-state path search, constant keyword census, guard analysis",
+     level_text="Static guarantee of the necessary structural clauses of the numeric round trip; the precision bound and "
+                "value preservation are runtime quantities and are not decided.")
+
+prop("C09",
+     [r_data.rule_tokenizer, r_data.rule_trim, r_sec.rule_title_pred, r_sec.rule_end_test, r_sec.rule_line_normalise,
+      r_sec.rule_reseek, r_data.rule_wrap_count, r_sec.rule_convention],
+     "Presentation-invariance clauses: the sniffer tokenises with the reader's DLM splitter (DATA.TOKENIZER); every "
+     "splitter of the factory yields whitespace-free tokens - decided on the regex AST as a character set, or by strip() "
+     "of each field - and comma splitting is positional (DATA.TRIM, DATA.SPLIT; COMMA and TAB trimming are recorded known "
+     "findings D10); title tests are startswith('~') on fully stripped lines (SEC.TITLE-PRED); all four section-bounded "
+     "loops iterate the file itself, count every physical line once and test for the section end on every iteration "
+     "(SEC.END-TEST), so blank/comment lines anywhere cannot shift the window; the three classifying loops strip fully "
+     "before the blank and comment tests, which precede parsing/counting, sniffer and reference engine agreeing "
+     "(LINE.NORMALISE); consumers are re-positioned by seek before every use (SEC.RESEEK); re-wrapping cannot change the "
+     "column count used for a wrapped file (DATA.WRAP-COUNT); one interval convention (SEC.CONVENTION). Not decided: "
+     "equality of results under compositions of the transformations, CR/LF handling of the I/O layer, tell/seek cookies.",
+     COMMON_ASSUMPTIONS, "DESIGN.md section 4, C09",
+     technique="regex character-set analysis of the tokenisers + reaching-definition strip analysis + CFG path queries on the line loops",
+     level_text="Static guarantee of the structural clauses that make reading independent of padding, blank/comment lines, "
+                "section placement and wrapping width; equality of parsed results is not executed. Two recorded findings (D10).")
+
+prop("C02",
+     [r_sec.rule_convention, r_sec.rule_end_test, r_sec.rule_line_normalise, r_data.rule_orient, r_data.rule_reshape,
+      r_sec.rule_reseek, r_sec.rule_scan],
+     "Engine-agreement clauses: both engines get the same line window - one interval convention for every section end and "
+     "the matching affine skip_header = first+1 / max_rows = last-first after seek(0) in the fast engine (SEC.CONVENTION, "
+     "SEC.SCAN); the reference engine and the sniffer count every physical line once, test for the section end on every "
+     "iteration, and skip exactly blank and comment lines of the stripped text as genfromtxt does (SEC.END-TEST, "
+     "LINE.NORMALISE); the fast engine's result is 2-D by construction or oriented from data-derived quantities only "
+     "(DATA.ORIENT), it returns columns (unpack=True), falls back on non-numeric cells (loose=False) and uses no "
+     "row/column-dropping option (DATA.RESHAPE); the fallback path re-seeks to the section (SEC.RESEEK). Not decided: "
+     "bit-identical values, NaN positions, equality of parsing of numeric spellings (properties of genfromtxt/np.float64).",
+     COMMON_ASSUMPTIONS + ["numpy.genfromtxt skips blank lines and '#' comments and counts max_rows in data rows"],
+     "DESIGN.md section 4, C02",
+     technique="affine normalisation of the line-window arithmetic + CFG path queries + provenance of the orientation predicate",
+     level_text="Static guarantee that the two engines are handed the same window and the same line classification; "
+                "value-level identity of the parsed numbers is not decided.")
